@@ -419,7 +419,7 @@ def lay5(ctx, c):
                 order.append((n.lineno, m.group(1), start, step, n))
     order.sort()
     names = [o[1] for o in order]
-    if names:
+    if len(set(names)) == 3:
         c.check(names == ["op_code", "post_byte", "additional"], "get_binary_array:order", "op_code, post_byte, additional", "order %s" % names,
                 "get_binary_array emits %s; an instruction is opcode, post-byte, operand" % names, where)
     else:
@@ -600,6 +600,18 @@ def wid8(ctx, c):
                     c.finding("%s:own-width" % what, "the constructor gives the value %d a width of %d hex digit(s)" % (got[0], ohint),
                               "%s: no width was asked for, the constructor settles on %d hex digit(s) for the value $%X - the digits that do not fit are dropped when the operand is emitted"
                               % (site, ohint, got[0]), where)
+                if hint is None and mname == "NONE" and isinstance(got[0], int) and not got[1] and 0 <= got[0] <= 0xFFFF:
+                    # an operand without prefix and without a width asked for renders as wide as its value needs: the index-offset arms emit that rendering into
+                    # a slot chosen by magnitude (one byte for 16..127), so a wider rendering is more bytes than the statement reserves
+                    try:
+                        hl = fold_method(ctx, NV, "hex_len", {k_: v_ for k_, v_ in out.items() if k_.startswith("self.")})
+                    except (NotConst, Raised, Exception):
+                        hl = None
+                    need_w = 2 if got[0] <= 0xFF else 4
+                    if isinstance(hl, int) and hl > need_w:
+                        c.finding("%s:own-width" % what, "the constructor renders the value $%X with %d hex digits" % (got[0], hl),
+                                  "%s: no prefix and no width were given, yet the value $%X renders with %d hex digits; used as a constant index offset (8-bit form, one offset byte reserved) "
+                                  "it is emitted as %d bytes" % (site, got[0], hl, hl // 2), where)
                 if mname in ("NONE", "EXTENDED") and omode in dirs and isinstance(got[0], int) and got[0] > 0xFF:
                     c.finding("%s:own-mode" % what, "the value $%X is marked direct" % got[0],
                               "%s: the constructor marks $%X as a direct-page address; a direct operand is one byte" % (site, got[0]), where)
